@@ -55,9 +55,9 @@ Notation tensor := (tensor A).
 
 (* column_modes given: a negative mode makes the sorted() test fail *)
 Lemma g_matricize_negative_some (t : tensor) rows c z : (z < 0)%Z -> In z (c ++ rows) ->
-  g_matricize (plain d) t rows (Some c) = Err.
+  g_matricize (plain d) t (PSeq rows) (Some (PSeq c)) = Err.
 Proof.
-  intros Hz Hin. unfold g_matricize. cbv zeta.
+  intros Hz Hin. unfold g_matricize. cbv zeta. cbn [py_list rcatch rbind].
   destruct (zlist_eqb (py_sorted (c ++ rows)) (py_range1 (py_ndim (plain d) t))) eqn:E; cbn [negb rbind]; [|reflexivity].
   exfalso. apply zlist_eqb_eq in E.
   assert (Hs : In z (py_sorted (c ++ rows))) by (eapply Permutation_in; [apply Permutation_sym, py_sorted_perm | exact Hin]).
@@ -66,9 +66,9 @@ Qed.
 
 (* column_modes=None: the default columns contain every mode that is not a row, so the normalised axes repeat *)
 Lemma g_matricize_negative_none (t : tensor) rows z : (z < 0)%Z -> In z rows ->
-  g_matricize (plain d) t rows None = Err.
+  g_matricize (plain d) t (PSeq rows) None = Err.
 Proof.
-  intros Hz Hin. unfold g_matricize. cbv zeta. cbn [rbind].
+  intros Hz Hin. unfold g_matricize. cbv zeta. cbn [py_list rcatch rbind].
   set (cs := filter (fun i => negb (zmemb i rows)) (py_range1 (py_ndim (plain d) t))).
   destruct (rmapM (fun i => py_getitem (py_shape (plain d) t) i) rows); cbn [rbind]; [|reflexivity].
   destruct (rmapM (fun i => py_getitem (py_shape (plain d) t) i) cs); cbn [rbind]; [|reflexivity].
@@ -93,22 +93,28 @@ Proof.
 Qed.
 
 Theorem g_matricize_z_eq (t : tensor) (rows : list Z) (cols : option (list Z)) :
-  g_matricize (plain d) t rows cols = matricize_z d t rows cols.
+  g_matricize (plain d) t (PSeq rows) (option_map PSeq cols) = matricize_z d t rows cols.
 Proof.
   unfold matricize_z.
   destruct (all_nonneg rows) eqn:Er.
   - destruct cols as [c|].
     + destruct (all_nonneg c) eqn:Ec; cbn [andb].
-      * rewrite <- (g_matricize_eq d t (map Z.to_nat rows) (Some (map Z.to_nat c))). cbn [option_map].
+      * cbn [option_map]. rewrite <- (g_matricize_eq d t (map Z.to_nat rows) (Some (map Z.to_nat c))). cbn [option_map].
         now rewrite !all_nonneg_roundtrip.
       * destruct (forallb_false_witness _ _ Ec) as [z [Hz Fz]]. apply Z.leb_gt in Fz.
         apply (g_matricize_negative_some t rows c z Fz). apply in_or_app. now left.
-    + cbn [andb]. rewrite <- (g_matricize_eq d t (map Z.to_nat rows) None). cbn [option_map].
+    + cbn [andb option_map]. rewrite <- (g_matricize_eq d t (map Z.to_nat rows) None). cbn [option_map].
       now rewrite all_nonneg_roundtrip.
   - cbn [andb]. destruct (forallb_false_witness _ _ Er) as [z [Hz Fz]]. apply Z.leb_gt in Fz.
     destruct cols as [c|].
     + apply (g_matricize_negative_some t rows c z Fz). apply in_or_app. now right.
     + now apply (g_matricize_negative_none t rows z Fz).
 Qed.
+
+(* the bare-int convenience of the source (try: list(x) except TypeError: [x]): an int stands for the one-element list *)
+Theorem g_matricize_bare_int {T : Type} (B : backend T) (t : T) (z : Z) (rows : pyseq) (cols : option pyseq) :
+  g_matricize B t (PInt z) cols = g_matricize B t (PSeq [z]) cols /\
+  g_matricize B t rows (Some (PInt z)) = g_matricize B t rows (Some (PSeq [z])).
+Proof. split; reflexivity. Qed.
 
 End P14.
